@@ -61,6 +61,11 @@ check("C19", "exploration",
       "Seeded search over interleavings of SendOOB (every length 0..GetOOBMaxSize()+1) with Write traffic in both directions under the full fault swarm, handlers present / absent / replaced by nil, one or several sessions on a listener; every handler argument must equal a payload sent to that session and arrive no more often than the network delivered it; refused calls put nothing on the wire; stream, wire (FEC id continuity around OOB) and pool oracles keep holding.",
       TB, "deterministic simulation with fault injection: seeded OOB/stream interleavings with tagged payloads, handler-argument and isolation oracles", "DESIGN.md 8/C19")
 
+check("C06", "exploration",
+      "At seeded quiescent points of seeded faulty traffic (every cipher, FEC on/off, listener and dialled paths) one datagram guaranteed to fail the integrity check is injected - built from captured genuine datagrams with the harness's own cipher - between two deep reflection snapshots of every session and the listener and two readings of the SNMP counters; any difference other than the checksum-error counter, any emitted datagram, returning call or new session is a violation, reported with the field path that changed.",
+      TB + " The snapshot is generic (reflection), skipping only channels, funcs, sync primitives and foreign objects.",
+      "deterministic simulation with fault injection: guaranteed-detectable corruptions of captured datagrams injected at quiescence, deep-state snapshot comparison", "DESIGN.md 8/C06")
+
 NOTYET = "check not built yet in this session (work in progress; see DESIGN.md section 8 for the design)"
 for p in props:
     if p["id"] not in CHECKS:
